@@ -604,7 +604,11 @@ def _run_estimator(case):
     if not _in_quantifier(case, A):
         return ("skip", "outside the quantifier: the published formula is undefined for these reference frequencies")
     kw, p, w = _kwargs(case, A)
+    kw0 = {k: (numpy.array(v, copy=True) if isinstance(v, numpy.ndarray) else v) for k, v in kw.items()}
     cm = _call(est, via, gm, kw)
+    for k, v in kw.items():
+        if isinstance(v, numpy.ndarray) and not (numpy.array_equal(v, kw0[k]) and v.dtype == kw0[k].dtype):
+            return "args-mutated", "from_gmat changed its argument %s" % k
     if not isinstance(cm, _cls(est)):
         return "type", "result is a %s" % type(cm).__name__
     G = cm.mat
@@ -690,6 +694,10 @@ def _direct_matrix(case):
                 if i == j and kind != "psd-singular":
                     v += 0.1
                 M[i][j] = M[j][i] = v * sc
+    elif kind == "asym":         # symmetric up to rounding-like noise only (as (Zw)Z' is): tells axis 0 from axis 1
+        for i in range(n):
+            for j in range(n):
+                M[i][j] = (2.0 if i == j else 0.5) + rnd.uniform(-1e-3, 1e-3)
     elif kind == "int":          # small integers: ties among extremes, negative entries, possibly singular
         for i in range(n):
             for j in range(i, n):
@@ -918,7 +926,7 @@ def gen_direct(rng, tier):
     for _ in range(N):
         n = rng.choice([1, 2, 2, 3, 3, 4, 5, 6, 8])
         yield dict(est="base", klass=rng.choice(klasses), n=n, m=1,
-                   kind=rng.choice(["spd", "spd", "spd-big", "spd-small", "psd-singular", "int", "int", "diag", "offdiag-max"]),
+                   kind=rng.choice(["spd", "spd", "spd-big", "spd-small", "psd-singular", "int", "int", "diag", "offdiag-max", "asym"]),
                    mseed=rng.randrange(10 ** 6), labels=rng.choice(["taxa", "none"]))
     for n in ([20, 40] if quick else [20, 40, 80, 150]):
         yield dict(est="base", klass=rng.choice(klasses), n=n, m=1, kind="spd", mseed=rng.randrange(10 ** 6), labels="taxa")
@@ -945,9 +953,7 @@ def _drive(ctx, cases, est):
                          if case.get(k) is not None})
         if bad:
             clause = _clause(msg)
-            cls = "c13-%s-%s" % (case.get("klass", est) if est == "base" else est, clause)
-            if est == "base":
-                cls = "c13-summaries-%s" % clause
+            cls = "c13-%s-%s" % ("summaries" if est == "base" else est, clause)
             seen[cls] = seen.get(cls, 0) + 1
             if seen[cls] <= 3:
                 ctx.fail_input("ring:%s:%s" % (est, clause), case, cls=cls, message=msg)
@@ -997,7 +1003,7 @@ def u_ring_gw(ctx):
 
 @unit(P, "ring[views and summaries on constructed matrices]", "R", bounded=True,
       note="bounded: 12 fixed corner matrices x 4 concrete classes, 500 (thorough 8000) seeded symmetric matrices n<=8 "
-           "(SPD, scaled, singular PSD, small-integer with ties/negatives, diagonal, off-diagonal maximum), n up to 40 (150)")
+           "(SPD, scaled, singular PSD, small-integer with ties/negatives, diagonal, off-diagonal maximum, slightly asymmetric), n up to 40 (150)")
 def u_ring_direct(ctx):
     ctx.rule = ("coancestry-matrix objects built directly from explicit / seeded symmetric matrices of every concrete "
                 "class; kinship view, element access, max/min/mean over every axis and dtype, max_inbreeding, inverse and "
